@@ -365,7 +365,7 @@ func runC14(c *core.Ctx) {
 			setOK := false
 			core.Instrs(st, func(ins ssa.Instruction) {
 				if call, isC := ins.(*ssa.Call); isC && core.InstrDominates(ins, goIns) {
-					if g := core.Callee(&call.Call); g != nil && core.IsAtomSet(g) && core.FieldKey(call.Call.Args[0]) == "CorDef.isStarted" && isTrueConst(call.Call.Args[1]) {
+					if fld, owner, ok := flagSetOf(p, call); ok && fld == "isStarted" && owner == st.Params[0].Name() {
 						setOK = true
 					}
 				}
